@@ -1,6 +1,7 @@
 """C08 plugin.  pregen (tie T1): harness/cmd/c08/extract (go/ast, source text only) regenerates
 lean/GeomV/C08/Gen/GoProj.lean from the CURRENT proj/{common,datum,merc,lcc,aea,eqdc,tmerc,utm,krovak}.go; the `rfl` lemmas of
-lean/GeomV/C08/{Ties,TiesCommon,TiesReal}.lean then re-check model = source for every arithmetic right-hand side."""
+lean/GeomV/C08/{Ties,TiesCommon,TiesReal,TiesGuards}.lean then re-check model = source for every arithmetic right-hand side,
+guard comparison (operands, operator, threshold) and literal loop bound."""
 import os, subprocess, sys
 sys.path.insert(0, os.path.join(os.path.dirname(os.path.dirname(os.path.abspath(__file__))), "lib"))
 import vcheck
@@ -62,7 +63,7 @@ def post(check, pairs, stats):
 
 CFG = {
     "id": "C08",
-    "lean_modules": ["GeomV.C08.Proofs", "GeomV.C08.ProofsConic", "GeomV.C08.ProofsTmerc", "GeomV.C08.ProofsGeodetic", "GeomV.C08.ProofsKrovak", "GeomV.C08.ProofsUnique", "GeomV.C08.ProofsConverge", "GeomV.C08.ProofsHelmert", "GeomV.C08.ProofsPipeline", "GeomV.C08.Ties", "GeomV.C08.TiesCommon", "GeomV.C08.TiesReal"],
+    "lean_modules": ["GeomV.C08.Proofs", "GeomV.C08.ProofsConic", "GeomV.C08.ProofsTmerc", "GeomV.C08.ProofsGeodetic", "GeomV.C08.ProofsKrovak", "GeomV.C08.ProofsUnique", "GeomV.C08.ProofsConverge", "GeomV.C08.ProofsHelmert", "GeomV.C08.ProofsPipeline", "GeomV.C08.Ties", "GeomV.C08.TiesCommon", "GeomV.C08.TiesReal", "GeomV.C08.TiesGuards"],
     "pregen": pregen,
     "post": post,
     "exe": "geomv_c08",
@@ -102,7 +103,12 @@ CFG = {
                                   "tie_krovak_S45", "tie_krovak_S0", "tie_krovakLatStep",
                                   # part 3 (TiesReal): krovak.go over the reals (Go folds S90-Uq, S0/2+S45, the Long0 default)
                                   "krovak_long0_real", "krovak_ad_real", "krovak_s0half_real", "tie_initKrovak_real",
-                                  "tie_fwdKrovak_real", "tie_invKrovakVals_real", "datum_genau_real"]],
+                                  "tie_fwdKrovak_real", "tie_invKrovakVals_real", "datum_genau_real",
+                                  # part 4 (TiesGuards): guards, tolerances, comparison operators and loop bounds
+                                  "guard_sign", "guard_adjustLon", "guard_adjustLat", "guard_asinz", "guard_phi2zLoop", "guard_phi2z_cap",
+                                  "guard_imlfnLoop", "guard_imlfn_cap", "guard_qsfnz", "guard_fwdMerc", "guard_fwdLcc", "guard_invLcc",
+                                  "guard_aeaPhi1zLoop", "guard_aeaPhi1z", "guard_invAea", "guard_invEqdc", "guard_tmercPhiLoop",
+                                  "guard_krovakLatLoop", "guard_geodeticToGeocentric"]],
     "trusted_base": [
         "Lean 4.33.0 kernel; axioms of every theorem printed by #print axioms must be within {propext, Classical.choice, Quot.sound}; Mathlib v4.33 modules imported by RealInst/Lemmas/Proofs are checked by the same kernel",
         "the generic model lean/GeomV/C08/{ProjCommon,ProjMerc,ProjLcc,ProjAea,ProjEqdc,ProjTmerc,ProjKrovak,ProjDatum,ProjPipeline}.lean is ONE definition per Go function; its Float instance is tied to /repo/proj by the correspondence run on every check (1e-9 relative on projected metres, 1e-12 rad on angles), its Real instance is what the theorems are about",
